@@ -55,3 +55,11 @@ Theorem C07_reads_correct_refuted_legacy_time_update :
   exists ops, legacy_read_valid ops IUpdated = false.
 Proof. exact legacy_time_reads_refuted. Qed.
 Print Assumptions C07_reads_correct_refuted_legacy_time_update.
+
+(* The oracle of the correspondence check: valid_page (a bool) accepts exactly the pages that
+   are spec pages for some order of the ties. *)
+Theorem C07_valid_page_iff : forall rs i asc from lim ft tu page,
+  NoDup (map r_key rs) ->
+  (valid_page rs i asc from lim ft tu page = true <-> is_spec_page rs i asc from lim ft tu page).
+Proof. exact valid_page_iff. Qed.
+Print Assumptions C07_valid_page_iff.
